@@ -31,6 +31,7 @@ type vLoop struct {
 	cutKind  int // 0 request lost, 1 response lost (server processed it), 2 peer error message
 	tamper   func(reqType, respType uint8, resp any) (uint8, any)
 	doneAccepted bool
+	maxReq68, maxResp69 int
 }
 
 var errCut = errors.New("harness: transport fault")
@@ -46,6 +47,9 @@ func (l *vLoop) Send(_ context.Context, msgType uint8, msg any, _ kex.Session) (
 	}
 	body, err := cbor.Marshal(msg)
 	verif.Assert(err == nil, "harness: request encodes")
+	if msgType == protocol.TO2DeviceServiceInfoMsgType && len(body) > l.maxReq68 {
+		l.maxReq68 = len(body)
+	}
 	rt, resp := l.srv.Respond(l.sctx, msgType, bytes.NewReader(body))
 	l.replies = append(l.replies, rt)
 	if rt == protocol.TO2Done2MsgType {
@@ -62,6 +66,9 @@ func (l *vLoop) Send(_ context.Context, msgType uint8, msg any, _ kex.Session) (
 	}
 	out, err := cbor.Marshal(resp)
 	verif.Assert(err == nil, "harness: response encodes")
+	if rt == protocol.TO2OwnerServiceInfoMsgType && len(out) > l.maxResp69 {
+		l.maxResp69 = len(out)
+	}
 	return rt, io.NopCloser(bytes.NewReader(out)), nil
 }
 
